@@ -13,9 +13,9 @@ import (
 	"github.com/jamf/regatta/util/iter"
 	sm "github.com/lni/dragonboat/v4/statemachine"
 
+	"github.com/jamf/regatta/verifvp/vp"
 	"verif/harness/checks/c03"
 	"verif/harness/checks/c04"
-	"github.com/jamf/regatta/verifvp/vp"
 
 	. "verif/harness/cmdx"
 	"verif/harness/evid"
@@ -554,7 +554,7 @@ func Run(r *evid.Run) {
 		}
 	})
 	// (3) crash enumeration over histories with installs (steps indices per c04: 8..11 controls)
-	for _, steps := range [][]int{{10}, {11}, {0, 10}, {0, 11}, {10, 0}, {11, 5}, {7, 8, 10}, {7, 9, 11}} {
+	for _, steps := range c04.InstallHistories() {
 		c04.RunHistoryExt(r, steps, "crash/")
 		r.AddExtra("crash_histories", 1)
 	}
